@@ -148,6 +148,14 @@ where
         }
     }
 
+    /// true if the frame is addressed to a unit id that has no handler: such frames are never answered
+    fn is_unmapped(&mut self, destination: FrameDestination) -> bool {
+        match destination {
+            FrameDestination::UnitId(unit_id) => self.handlers.get(unit_id).is_none(),
+            FrameDestination::Broadcast => false,
+        }
+    }
+
     async fn handle_frame(&mut self, io: &mut PhysLayer, frame: Frame) -> Result<(), RequestError> {
         let mut cursor = ReadCursor::new(frame.payload());
 
@@ -160,6 +168,9 @@ where
                 Some(x) => x,
                 None => {
                     tracing::warn!("received unknown function code: {}", value);
+                    if self.is_unmapped(frame.header.destination) {
+                        return Ok(());
+                    }
                     return self
                         .reply_with_error_generic(
                             io,
@@ -176,6 +187,9 @@ where
             Ok(x) => x,
             Err(err) => {
                 tracing::warn!("error parsing {:?} request: {}", function, err);
+                if self.is_unmapped(frame.header.destination) {
+                    return Ok(());
+                }
                 return self
                     .reply_with_error(io, frame.header, function, ExceptionCode::IllegalDataValue)
                     .await;
